@@ -1,5 +1,5 @@
 import JunoModel.Common.Proto
-import JunoModel.C02.Model
+import JunoModel.C02.ModelAccept
 /-!
 Line-protocol driver for the C02 model (`lake build c02drv`).
 
@@ -109,6 +109,94 @@ def pNet : P Net := do
   let fb ← pOpt pFelt
   pure ⟨c, f, unv, fb⟩
 
+def pClasses : P Classes :=
+  pList (do let k ← pNat; let c0 ← pBool; let h ← pNat; pure (k, (⟨c0, h⟩ : ClassDef)))
+
+def pBundle : P Bundle := do
+  let b ← pBlock
+  let bh ← pFelt; let nr ← pFelt; let orr ← pFelt; let d ← pStateDiff
+  let cs ← pClasses
+  pure ⟨b, ⟨bh, nr, orr, d⟩, cs⟩
+
+def pHead : P (Option Head) := pOpt (do let n ← pU64; let h ← pFelt; pure (⟨n, h⟩ : Head))
+
+/-! ### abstraction of declared hashes
+
+`accept` compares terms. The Go side has evaluated the model's own hash terms (transaction hashes,
+block hash per sequencer override) with the real primitives and sends the values; a literal in a
+hash-typed position (transaction hash, receipt's transaction hash, block hash, state update's block
+hash) that equals the value of such a term IS that hash, so it is replaced by the term before
+`accept` runs (the standard symbolic abstraction of a concrete run). -/
+
+def Tx.setHash (h : Term) : Tx → Tx
+  | .invoke t => .invoke { t with hash := h }
+  | .declare t => .declare { t with hash := some h }
+  | .deploy t => .deploy { t with hash := some h }
+  | .deployAccount t => .deployAccount { t with hash := h }
+  | .l1Handler t => .l1Handler { t with hash := h }
+
+/-- (value, term) pairs known so far -/
+abbrev AbsTable := List (Nat × Term)
+
+def absTerm (tbl : AbsTable) (t : Term) : Term :=
+  match t with
+  | .felt n => (match tbl.find? (fun p => p.1 == n) with | some p => p.2 | none => t)
+  | _ => t
+
+def abstractTxs (chain : Term) : List Tx → List (Option Nat) → List Tx × AbsTable
+  | t :: ts, e :: es =>
+    let (ts', tbl) := abstractTxs chain ts es
+    match e, txHash chain t, t.hash with
+    | some v, some T, some (.felt n) =>
+      if n == v then
+        -- kinds whose hash is "as declared" keep their literal: their term would be the literal itself
+        (match T with
+         | .felt _ => (t :: ts', tbl)
+         | _ => (Tx.setHash T t :: ts', (v, T) :: tbl))
+      else (t :: ts', (v, T) :: tbl)
+    | some v, some T, _ => (t :: ts', (v, T) :: tbl)
+    | _, _, _ => (t :: ts', tbl)
+  | ts, _ => (ts, [])
+
+def abstractBundle (net : Net) (B : Bundle) (txVals : List (Option Nat)) (bhVals : List (Option Nat)) : Bundle :=
+  let (txs', tbl) := abstractTxs net.chainId B.block.txs txVals
+  let rs' := B.block.receipts.map (fun r => { r with txHash := absTerm tbl r.txHash })
+  let b1 : Block := { B.block with txs := txs', receipts := rs' }
+  -- block hash terms of the abstracted block, per override the verification loop may use
+  let fbs : List Term := (.felt 0) :: (match net.fallbackSeq with | some f => [f] | none => [])
+  let ovs : List (Option Term) := fbs.map (fun fb => if b1.header.sequencer.isNone then some fb else none)
+  let bhTbl : AbsTable := (List.zip ovs bhVals).filterMap (fun p =>
+    match p.2, blockHash net b1 B.su.diff p.1 with
+    | some v, some T => some (v, T)
+    | _, _ => none)
+  let hdr := { b1.header with hash := absTerm bhTbl b1.header.hash }
+  { B with block := { b1 with header := hdr }, su := { B.su with blockHash := absTerm bhTbl B.su.blockHash } }
+
+def rejectStr : Reject → String
+  | .suBlockHash => "su-blockhash" | .suNewRoot => "su-newroot" | .classHash => "class-hash"
+  | .txReceiptLen => "tx-receipt-len" | .receiptTxHash => "receipt-txhash" | .txHash => "tx-hash"
+  | .blockHash => "block-hash" | .version => "version" | .number => "number" | .parent => "parent"
+  | .state => "state"
+
+/-- every check of `SanityCheckNewHeight` / `verifyBlockSuccession` that fails on its own (the
+comparison with the real node is insensitive to the ORDER of independent checks, so that a
+harmless reordering in juno does not raise an alarm; the model's `accept` has the code's order). -/
+def failures (net : Net) (head : Option Head) (B : Bundle) : List Reject :=
+  let b := B.block
+  let skip := inUnverifiable net b.header.number
+  (if b.header.hash ≠ B.su.blockHash then [.suBlockHash] else []) ++
+  (if b.header.stateRoot ≠ B.su.newRoot then [.suNewRoot] else []) ++
+  (if !verifyClassHashes B.classes then [.classHash] else []) ++
+  (if b.txs.length ≠ b.receipts.length then [.txReceiptLen] else []) ++
+  (if !(List.zip b.txs b.receipts).all (fun tr => tr.1.hash == some tr.2.txHash) then [.receiptTxHash] else []) ++
+  (match (if skip then Except.ok () else verifyTransactionsE net.chainId b.txs b.header.version) with
+   | .error e => [e] | .ok () => []) ++
+  (match tryFallbacks net b B.su.diff skip ((.felt 0) :: (match net.fallbackSeq with | some f => [f] | none => [])) with
+   | .error e => [e] | .ok () => []) ++
+  (if !versionSupported b.header.version then [.version] else []) ++
+  (if expectedNumber head ≠ b.header.number then [.number] else []) ++
+  (if b.header.parentHash ≠ expectedParent head then [.parent] else [])
+
 partial def termStr : Term → String
   | .felt n => natToHex n
   | .ped a b => "( ped " ++ termStr a ++ " " ++ termStr b ++ " )"
@@ -173,6 +261,19 @@ def step (s : Unit) (line : String) : Unit × String :=
                        ++ " | " ++ termStr (.comm .pos (b.receipts.map receiptHash)) ++ " | " ++ termStr (stateDiffHash d)
                        ++ " | " ++ natToHex (stateDiffLength d)
           | none => "bad-op")
+    | none => (s, "bad-op")
+  | "accept" :: rest =>
+    -- verdict of SanityCheckNewHeight + Store up to (not including) the state application
+    match parseAll (do let n ← pNet; let hd ← pHead; let B ← pBundle
+                       let tv ← pList (pOpt pNat); let bv ← pList (pOpt pNat); pure (n, hd, B, tv, bv)) rest with
+    | some (n, hd, B, tv, bv) =>
+      let B' := abstractBundle n B tv bv
+      let sem : StateSem Term := ⟨fun st _ => st, fun _ _ _ _ => some B'.su.newRoot⟩
+      let c : Chain Term := ⟨hd, B'.su.oldRoot, []⟩
+      let fs := (failures n hd B').map rejectStr
+      (s, (match verdict (accept sem n c B') with
+           | none => "pass"
+           | some e => rejectStr e) ++ " | " ++ String.intercalate "," fs)
     | none => (s, "bad-op")
   | "vtx" :: rest =>
     -- VerifyTransactions on transactions whose model hash is the declared literal itself
